@@ -352,6 +352,7 @@ class Interp(object):
         self._dyn_members = {}
         self._module_scope = {}
         self.trace = False
+        self._value_hooks = any(isinstance(k, str) and k.startswith('value:') for k in self.hooks)
         self.attr_tracer = None     # callable(kind, obj, attr): 'read' / 'probe' / 'write' of attributes of descriptor objects
 
     # ------------------------------------------------------------------ path exploration
@@ -511,6 +512,15 @@ class Interp(object):
         return TOP
 
     def ev_Attribute(self, e, env):
+        if self._value_hooks:
+            # objects of the environment a rule models (sys.stdout.buffer ...): answered by the rule wherever the expression is evaluated
+            root = e
+            while isinstance(root, ast.Attribute):
+                root = root.value
+            if isinstance(root, ast.Name) and root.id not in env and root.id not in self.globals:
+                h = self.hooks.get('value:' + src(e))
+                if h is not None:
+                    return h
         if isinstance(e.value, ast.Name):
             base = e.value.id
             if base not in env and base not in self.globals and base in PURE_MODULES and \
@@ -1372,6 +1382,10 @@ class Interp(object):
                 (a0.id == 'ast' or (self.model is not None and self.module is not None and self.model.is_ast_alias(self.module, a0.id))):
             # hasattr(ast, 'ClassName'): the node classes of this interpreter plus the compatibility classes of the package
             return hasattr(ast, name) or (self.model is not None and ('python_minifier.ast_compat.' + name) in self.model.classes)
+        if isinstance(a0, ast.Name) and a0.id not in env and a0.id in ('os', 'sys', 'io', 're', 'tokenize', 'itertools', 'functools', 'collections') and isinstance(name, str) and \
+                (self.model is None or self.module is None or self.model.imports.get(self.module, {}).get(a0.id, a0.id) == a0.id):
+            # feature test on a module of the standard library: answered for the interpreter the check runs on
+            return hasattr(__import__(a0.id), name)
         if o is TOP or name is TOP:
             return TOP
         if isinstance(o, Obj):
@@ -1420,6 +1434,12 @@ class Interp(object):
                 if len(args) == 3:
                     return args[2]
                 raise _Raise('AttributeError:' + name)
+        if len(args) >= 2 and isinstance(args[1], str) and isinstance(args[0], (str, bytes, list, dict, tuple, set, int, float, complex, OneShot)):
+            if hasattr(args[0], args[1]) and not (isinstance(args[0], OneShot) and args[1] == 'take'):
+                return self.getattr(args[0], args[1])
+            if len(args) == 3:
+                return args[2]
+            raise _Raise('AttributeError:' + args[1])
         return TOP
 
     def builtin_setattr(self, args, kwargs, e, env):
@@ -1616,6 +1636,12 @@ class Interp(object):
         if not isinstance(start, int) or set(kwargs) - {'start'} or len(args) > 2:
             raise _Abort('enumerate() with undetermined arguments')
         return list(enumerate(self.iterate(args[0]), start))
+
+    def builtin_reversed(self, args, kwargs, e, env):
+        if args[0] is TOP or isinstance(args[0], Obj):
+            return TOP
+        r = list(reversed(self.iterate(args[0])))
+        return OneShot(r) if self.version >= (3,) else r
 
     def builtin_range(self, args, kwargs, e, env):
         if any(a is TOP for a in args):
